@@ -78,6 +78,7 @@ fn main() {
         "C02" => drive(&checks::statics::Statics { which: checks::statics::Which::C02 }, &opts),
         "C03" => drive(&checks::statics::Statics { which: checks::statics::Which::C03 }, &opts),
         "C04" => drive(&checks::statics::Statics { which: checks::statics::Which::C04 }, &opts),
+        "C07" => drive(&checks::multi::Multi, &opts),
         _ => {
             eprintln!("unknown property {}", id);
             2
